@@ -214,13 +214,13 @@ type fakeTraversalStream struct {
 	n   int
 }
 
-func (f *fakeTraversalStream) SetHeader(metadata.MD) error      { return nil }
-func (f *fakeTraversalStream) SendHeader(metadata.MD) error     { return nil }
-func (f *fakeTraversalStream) SetTrailer(metadata.MD)           {}
-func (f *fakeTraversalStream) Context() context.Context         { return f.ctx }
-func (f *fakeTraversalStream) SendMsg(m interface{}) error      { return nil }
-func (f *fakeTraversalStream) RecvMsg(m interface{}) error      { return io.EOF }
-func (f *fakeTraversalStream) Send(*gripql.QueryResult) error   { f.n++; return nil }
+func (f *fakeTraversalStream) SetHeader(metadata.MD) error    { return nil }
+func (f *fakeTraversalStream) SendHeader(metadata.MD) error   { return nil }
+func (f *fakeTraversalStream) SetTrailer(metadata.MD)         {}
+func (f *fakeTraversalStream) Context() context.Context       { return f.ctx }
+func (f *fakeTraversalStream) SendMsg(m interface{}) error    { return nil }
+func (f *fakeTraversalStream) RecvMsg(m interface{}) error    { return io.EOF }
+func (f *fakeTraversalStream) Send(*gripql.QueryResult) error { f.n++; return nil }
 
 func bulkAddHandler() grpc.StreamHandler {
 	for _, sd := range gripql.Edit_ServiceDesc.Streams {
@@ -327,6 +327,19 @@ func wireElem(prefix string, e map[string]interface{}) *gripql.GraphElement {
 		ge.Edge = &gripql.Edge{Gid: str(r, "id"), Label: str(r, "label"), From: str(r, "from"), To: str(r, "to"), Data: structOf(r)}
 	}
 	return ge
+}
+
+// unstorable gives an element that fails validation for a blank id, label or endpoint the other concrete shape of
+// "invalid": everything filled in, but data that the store cannot encode. An element that is invalid for another
+// reason, or valid, is left as it is.
+func unstorable(ge *gdbi.GraphElement) {
+	bad := map[string]interface{}{"tags": []string{"x", "y"}}
+	if v := ge.Vertex; v != nil && (v.ID == "" || v.Label == "") {
+		v.ID, v.Label, v.Data = "uu", "UU", bad
+	}
+	if e := ge.Edge; e != nil && (e.ID == "" || e.Label == "" || e.From == "" || e.To == "") {
+		e.ID, e.Label, e.From, e.To, e.Data = "ue", "UK", "a", "b", bad
+	}
 }
 
 // setupGraphs creates the initial store of the specification under `prefix`, through the server.
@@ -535,7 +548,11 @@ func (h *Handler) runStream(req map[string]interface{}, prefix string, resp map[
 			for _, e := range elems {
 				em := e.(map[string]interface{})
 				if str(em, "g") == g {
-					ch <- gdbi.NewGraphElement(wireElem(prefix, em))
+					ge := gdbi.NewGraphElement(wireElem(prefix, em))
+					if u, _ := req["unstorable"].(bool); u {
+						unstorable(ge)
+					}
+					ch <- ge
 				}
 			}
 			close(ch)
